@@ -109,3 +109,11 @@ claim('C13', 'Lean 4 decision-logic proofs (first matching variant, specific bef
       'Each run compares the bytes (unique opcodes / operand codes identify the choice) and exit status of the real CLI with the '
       'model on deliberately ambiguous generated ISAs, incl. multi-statement programs.',
       NOTE + ' Operand forms are syntactic classes of operand text; quirks of the regexes outside the generated forms (e.g. enumeration keys matched as a prefix) are listed in DESIGN.md.')
+
+claim('C10', 'Lean 4 refinement proof (step loop with running address = expanded statements at prefix-sum addresses) + metamorphic and differential correspondence',
+      'Kernel-checked theorems: the macro step loop emits exactly the concatenation of the bytes of the instantiated templates '
+      'assembled in order as ordinary statements, statement k at addr + sum of earlier sizes (errors included); size = sum of step '
+      'sizes; the macro variant is the first whose operand pattern accepts; unfillable placeholders (index out of range, @ARG '
+      'without argument, @REG on a non-register operand) are rejected. Each run compares on the real CLI the program with '
+      'invocations against the hand-expanded program (image incl. following label addresses) and the invocation bytes against the model.',
+      NOTE + ' @ARG(n) inside a larger expression is generated for atomic argument texts only (substitution is textual); @OP(n) not with empty operands.')
